@@ -1,4 +1,5 @@
 import SSVerif.Proofs.LexFlatPaths
+import SSVerif.Model.LexFlatHyps
 /-!
 # The instances of the flat network (`FlatNet.instsOfArc`) as pnodes of the lextree the code builds
 
@@ -12,20 +13,57 @@ open SSVerif.Search SSVerif.Hist
 open SSVerif.FlatNet (Model Arc Word Inst instsOfArc wordArcs lcSet rcSet shiftS)
 open SSVerif.Generated.Search (wposSingle wposBegin wposInternal wposEnd senscrShift)
 
-/-- the lextree's lookups and penalties are those of the flat model -/
+/-- the lextree's lookups and penalties are those of the flat model, for the words on the arcs of `M` -/
 structure LookAgree (M : Model) (li : LexIn) : Prop where
   wip : li.wip = M.wip
   pip : li.pip = M.pip
   shift : li.shift = senscrShift
-  filler : ∀ wid wd, M.word wid = some wd → (li.word wid).dictFiller = wd.filler
-  ciSsid : ∀ p ss, M.ciSsid p = some ss → li.ciSsid p = ss
-  ciTmat : ∀ p t, M.ciTmat p = some t → li.tmat p = t
-  single : ∀ p l ss, M.ssid p l M.sil wposSingle = some ss → li.lrdiph p l = ss
-  begin_ : ∀ p0 l p1 ss, M.ssid p0 l p1 wposBegin = some ss → li.ldiph p0 p1 l = ss
-  internal : ∀ wid wd k ss, M.word wid = some wd →
-    M.ssid (wd.pron.getD (k + 1) 0) (wd.pron.getD k 0) (wd.pron.getD (k + 2) 0) wposInternal = some ss →
-    li.internal (li.word wid).dictWid (k + 1) = ss
-  final : ∀ pl pp r ss, M.ssid pl pp r wposEnd = some ss → li.rcSsid pl pp (li.rcMap pl pp r) = ss
+  words : ∀ a ∈ M.arcs, ∀ wid, a.wid = some wid → ∀ wd, M.word wid = some wd → WordLook M li wid wd
+
+theorem ctxList_lt {li : LexIn} {m c : Nat} (h : c ∈ ctxList li m) : c < li.nCi := by
+  unfold ctxList at h
+  exact List.mem_range.1 (List.mem_filter.1 h).1
+
+section WordLookLemmas
+variable {M : Model} {li : LexIn} {wid : Nat} {wd : Word}
+
+theorem WordLook.ciTmat' (hw : WordLook M li wid wd) {k t : Nat} (hk : k < wd.pron.length) (h : M.ciTmat (wd.pron.getD k 0) = some t) :
+    li.tmat (wd.pron.getD k 0) = t := hw.ciTmat k hk t h
+
+theorem WordLook.ciTmat'' (hw : WordLook M li wid wd) {l : List Nat} (hp : wd.pron = l) {k t : Nat} (hk : k < l.length)
+    (h : M.ciTmat (l.getD k 0) = some t) : li.tmat (l.getD k 0) = t := by
+  subst hp; exact hw.ciTmat k hk t h
+
+theorem WordLook.ciSsid' (hw : WordLook M li wid wd) {p ss : Nat} (hp : wd.pron = [p]) (h : M.ciSsid p = some ss) : li.ciSsid p = ss := by
+  have := hw.ciSsid (by rw [hp]; rfl)
+  rw [hp] at this
+  exact this ss h
+
+theorem WordLook.single' (hw : WordLook M li wid wd) {p l ss : Nat} (hp : wd.pron = [p]) (hl : l < li.nCi)
+    (h : M.ssid p l M.sil wposSingle = some ss) : li.lrdiph p l = ss := by
+  have := hw.single (by rw [hp]; rfl) l hl
+  rw [hp] at this
+  exact this ss h
+
+theorem WordLook.begin' (hw : WordLook M li wid wd) {p0 p1 l ss : Nat} {rest : List Nat} (hp : wd.pron = p0 :: p1 :: rest) (hl : l < li.nCi)
+    (h : M.ssid p0 l p1 wposBegin = some ss) : li.ldiph p0 p1 l = ss := by
+  have := hw.begin_ (by rw [hp]; simp) l hl
+  rw [hp] at this
+  exact this ss h
+
+theorem WordLook.internal' (hw : WordLook M li wid wd) {k ss : Nat} (hk : k < wd.pron.length - 2)
+    (h : M.ssid (wd.pron.getD (k + 1) 0) (wd.pron.getD k 0) (wd.pron.getD (k + 2) 0) wposInternal = some ss) :
+    li.internal (li.word wid).dictWid (k + 1) = ss := hw.internal k hk ss h
+
+theorem WordLook.final' (hw : WordLook M li wid wd) {p0 p1 r ss : Nat} {rest : List Nat} (hp : wd.pron = p0 :: p1 :: rest) (hr : r < li.nCi)
+    (h : M.ssid ((p0 :: p1 :: rest).getD ((p0 :: p1 :: rest).length - 1) 0) ((p0 :: p1 :: rest).getD ((p0 :: p1 :: rest).length - 2) 0) r wposEnd = some ss) :
+    li.rcSsid ((p0 :: p1 :: rest).getD ((p0 :: p1 :: rest).length - 1) 0) ((p0 :: p1 :: rest).getD ((p0 :: p1 :: rest).length - 2) 0)
+      (li.rcMap ((p0 :: p1 :: rest).getD ((p0 :: p1 :: rest).length - 1) 0) ((p0 :: p1 :: rest).getD ((p0 :: p1 :: rest).length - 2) 0) r) = ss := by
+  have := hw.final (by rw [hp]; simp) r hr
+  rw [hp] at this
+  exact this ss h
+
+end WordLookLemmas
 
 /-- pnode `n` is the HMM instance `h`: same FSG state, senone-sequence id, transition matrix, entry penalty, leaf flag and
 arc, phone presented to the neighbours, and the instance's context phones are in the pnode's context set -/
@@ -59,7 +97,7 @@ structure ArcView (M : Model) (li : LexIn) (i : Nat) (a : Arc) (w : Word) : Prop
   logp : ((fsgOf M).link i).logp = a.logp
   pron : (li.word ((fsgOf M).link i).wid.toNat).pron = w.pron
   filler : (li.word ((fsgOf M).link i).wid.toNat).dictFiller = w.filler
-  wid : ∃ wid, ((fsgOf M).link i).wid.toNat = wid ∧ M.word wid = some w
+  wid : ∃ wid, ((fsgOf M).link i).wid.toNat = wid ∧ M.word wid = some w ∧ WordLook M li wid w
   ne : w.pron ≠ []
 
 theorem arcView {M : Model} {li : LexIn} (h : Agree M li) (hl : LookAgree M li) {i : Nat} {a : Arc} {w : Word}
@@ -77,7 +115,7 @@ theorem arcView {M : Model} {li : LexIn} (h : Agree M li) (hl : LookAgree M li) 
     · rw [List.getElem?_eq_none h5] at ha; cases ha
   have hwt : ((fsgOf M).link i).wid.toNat = wid := by rw [hlink]; exact widInt_some hwid
   refine ⟨?_, (h.state a hm).1, by rw [hlink], (h.state a hm).2, by rw [hlink], by rw [hwt]; exact h2,
-    by rw [hwt]; exact hl.filler wid wd hwd, ⟨wid, hwt, hwd⟩, h4⟩
+    by rw [hwt]; exact (hl.words a hm wid hwid wd hwd).filler, ⟨wid, hwt, hwd, hl.words a hm wid hwid wd hwd⟩, h4⟩
   unfold stateArcs arcsOf
   simp only [List.mem_filter, List.mem_range, decide_eq_true_eq]
   refine ⟨⟨by rw [fsgOf_size]; exact hi, by rw [hlink]⟩, ?_⟩
@@ -111,6 +149,7 @@ theorem bridge_filler {M : Model} {li : LexIn} (h : Agree M li) (hl : LookAgree 
     ∀ x ∈ insts, ∃ r ∈ (buildLexTree li (fsgOf M)).roots a.src,
       NodeOf ((buildLexTree li (fsgOf M)).node r) x ∧ AllCtx ((buildLexTree li (fsgOf M)).node r) := by
   have v := arcView h hl hx
+  obtain ⟨wid, hwid, hwd, hw⟩ := v.wid
   unfold instsOfArc at hi
   simp only [hp, hf, if_true, Option.bind_eq_bind, Option.bind_eq_some_iff, Option.pure_def, Option.some.injEq] at hi
   obtain ⟨ss, hss, tmv, htm, hins⟩ := hi
@@ -124,8 +163,8 @@ theorem bridge_filler {M : Model} {li : LexIn} (h : Agree M li) (hl : LookAgree 
   subst hxm
   obtain ⟨f1, f2, f3, f4, f5, f6, f7⟩ := hh.fields
   refine ⟨r, hr, ⟨f1, f2, ?_, ?_, ?_, fun _ => f3, fun _ => (by rw [f7]; exact h.sil), fun c hc => (by cases hc), fun c hc => (by cases hc)⟩, hall⟩
-  · rw [f4, v.pron, hp]; exact hl.ciSsid p ss hss
-  · rw [f5, v.pron, hp]; exact hl.ciTmat p tmv htm
+  · rw [f4, v.pron, hp]; exact hw.ciSsid' hp hss
+  · rw [f5, v.pron, hp]; exact hw.ciTmat'' hp (k := 0) (by simp) htm
   · rw [f6, v.logp, shift_eq hl, hl.wip, hl.pip]
 
 /-- **single-phone words**: every instance (one per left context of the source state) is a root-and-leaf pnode of `root[src]`
@@ -135,6 +174,7 @@ theorem bridge_single {M : Model} {li : LexIn} (h : Agree M li) (hl : LookAgree 
     (hi : instsOfArc M i a w = some insts) :
     ∀ x ∈ insts, ∃ r ∈ (buildLexTree li (fsgOf M)).roots a.src, NodeOf ((buildLexTree li (fsgOf M)).node r) x := by
   have v := arcView h hl hx
+  obtain ⟨wid, hwid, hwd, hw⟩ := v.wid
   unfold instsOfArc at hi
   simp only [hp, hf, Bool.false_eq_true, if_false, Option.bind_eq_bind, Option.bind_eq_some_iff] at hi
   obtain ⟨tmv, htm, hmap⟩ := hi
@@ -149,8 +189,8 @@ theorem bridge_single {M : Model} {li : LexIn} (h : Agree M li) (hl : LookAgree 
   obtain ⟨r, hr, hh⟩ := hb l ((lc_iff h v.src l).2 hlm)
   obtain ⟨f1, f2, f3, f4, f5, f6, f7⟩ := hh.fields
   refine ⟨r, hr, f1, f2, ?_, ?_, ?_, fun _ => f3, fun _ => (by rw [f7, v.pron, hp]; rfl), fun c hc => ?_, fun c hc => (by cases hc)⟩
-  · rw [f4, v.pron, hp]; exact hl.single p l ss hss
-  · rw [f5, v.pron, hp]; exact hl.ciTmat p tmv htm
+  · rw [f4, v.pron, hp]; exact hw.single' hp (ctxList_lt ((lc_iff h v.src l).2 hlm)) hss
+  · rw [f5, v.pron, hp]; exact hw.ciTmat'' hp (k := 0) (by simp) htm
   · rw [f6, v.logp, shift_eq hl, hl.wip, hl.pip]
   · simp only [Option.some.injEq] at hc
     subst hc
@@ -174,7 +214,7 @@ theorem bridge_multi {M : Model} {li : LexIn} {tm : Nat → Nat} (h : Agree M li
           (∀ j, 1 ≤ j → j < w.pron.length - 2 → qf (j + 1) ∈ (buildLexTree li (fsgOf M)).children (qf j)) ∧
           l ∈ (buildLexTree li (fsgOf M)).children (qf (w.pron.length - 2))) := by
   have v := arcView h hl hx
-  obtain ⟨wid, hwid, hwd⟩ := v.wid
+  obtain ⟨wid, hwid, hwd, hw⟩ := v.wid
   unfold instsOfArc at hi
   simp only [hp, Option.bind_eq_bind, Option.bind_eq_some_iff, Option.pure_def, Option.some.injEq] at hi
   obtain ⟨tm0, htm0, roots, hroots, inner, hinner, tml, html, leaves, hleaves, hins⟩ := hi
@@ -221,8 +261,8 @@ theorem bridge_multi {M : Model} {li : LexIn} {tm : Nat → Nat} (h : Agree M li
   · obtain ⟨f1, f2, f3, f4, f5, f6, f7⟩ := hrh.fields
     rw [← hRe]
     refine ⟨f1, f2, ?_, ?_, ?_, fun hc => (by cases hc), fun _ => (by rw [f7, v.pron, hp]; rfl), fun c hc => ?_, fun c hc => (by cases hc)⟩
-    · rw [f4, v.pron, hp]; exact hl.begin_ p0 lc p1 ssR hssR
-    · rw [f5, v.pron, hp]; exact hl.ciTmat p0 tm0 htm0
+    · rw [f4, v.pron, hp]; exact hw.begin' hp (ctxList_lt ((lc_iff h v.src lc).2 hlcm)) hssR
+    · rw [f5, v.pron, hp]; exact hw.ciTmat'' hp (k := 0) (by simp) htm0
     · rw [f6, hl.wip, hl.pip]
     · simp only [Option.some.injEq] at hc
       subst hc
@@ -232,8 +272,8 @@ theorem bridge_multi {M : Model} {li : LexIn} {tm : Nat → Nat} (h : Agree M li
     have e2 : w.pron.length - 2 = (p0 :: p1 :: rest).length - 2 := by rw [hwlen]
     rw [← hLe]
     refine ⟨f1, f2, ?_, ?_, ?_, fun _ => f3, fun _ => (by rw [f7, v.pron, e1, hp]), fun c hc => (by cases hc), fun c hc => ?_⟩
-    · rw [f4, v.pron, e1, e2, hp]; exact hl.final _ _ rc ssL hssL
-    · rw [f5, v.pron, e1, hp]; exact hl.ciTmat _ tml html
+    · rw [f4, v.pron, e1, e2, hp]; exact hw.final' hp (ctxList_lt ((rc_iff h v.dstLt rc).2 hrcm)) hssL
+    · rw [f5, v.pron, e1, hp]; exact hw.ciTmat'' hp (k := (p0 :: p1 :: rest).length - 1) (by simp) html
     · rw [f6, v.logp, shift_eq hl, hl.pip]
     · simp only [Option.some.injEq] at hc
       subst hc
@@ -289,9 +329,9 @@ theorem bridge_multi {M : Model} {li : LexIn} {tm : Nat → Nat} (h : Agree M li
     refine ⟨hown, d1, ?_, ?_, ?_, fun hc => (by cases hc), fun hc => (by rcases hc with hc | hc <;> cases hc), fun c hc => (by cases hc),
       fun c hc => (by cases hc)⟩
     · rw [d2, hwid]
-      have := hl.internal wid w k ssI hwd (by rw [hp]; exact hssI)
+      have := hw.internal' (k := k) (by omega) (by rw [hp]; exact hssI)
       exact this
-    · rw [d3, v.pron, hp]; exact hl.ciTmat _ tmI htmI
+    · rw [d3, v.pron, hp]; exact hw.ciTmat'' hp (k := k + 1) (by rw [← hp]; omega) htmI
     · rw [d4, hl.pip]
 
 end SSVerif.LexFlat
